@@ -17,6 +17,7 @@ for (kind, ident), rs in sorted(rows.items(), key=lambda x: (x[0][0] != "sd", x[
                      ("caught, no failing input" if rc == 1 else "not reported")) for p, rc, cl in rs)
     note = ""
     if "MISSED" in meta.get("history", ""): note = " — first missed, see meta.json"
+    if ident == "C01-1": note = " — no longer a violation since 78eb247 (see meta.json); caught before that fix"
     if ident == "C18-1": note = " — no longer a violation since 7acf6c7 (see meta.json); caught before that fix"
     out.append("| seeded %s | %s | %s | %s%s |" % (ident, meta["change"], meta["needs_to_manifest"], res, note))
 out += ["", "| reverted fix | property | check → result |", "|---|---|---|"]
